@@ -123,7 +123,7 @@ for p in props:
     })
 m = {
  "version": 1,
- "setup_cmd": "cd /verif/harness && CARGO_NET_OFFLINE=true cargo build --release --offline -p vchecks --bins && cargo build --release --offline -p vsr && cargo build --release --offline -p vchecks --bin c17 --features tp-unstable --target-dir /verif/target/feat-unstable && /verif/target/release/c18 --prebuild",
+ "setup_cmd": "cd /verif/harness && CARGO_NET_OFFLINE=true cargo build --release --offline -p vchecks --bins && cargo build --release --offline -p vsr && cargo build --release --offline -p vchecks --bins --features tp-unstable --target-dir /verif/target/feat-unstable && /verif/target/release/c18 --prebuild",
  "hooks": {
    "guard": "tls_parser_verif",
    "enable": "RUSTFLAGS/--cfg tls_parser_verif via /verif/harness/.cargo/config.toml ([build] rustflags); the harness path-depends on /repo so every check rebuilds from its working tree",
